@@ -23,7 +23,8 @@ H = 'f_c10'
 HT = 'f_c10_tsan'
 HARNESS_ENV = {'TSAN_OPTIONS': 'halt_on_error=1:exitcode=97:report_signal_unsafe=0'}
 RULE = ('programs of 50-400 operations (SetValue / SetValues incl. empty and duplicate-key containers / Context(kvs) / '
-        'Context(k,v) / GetValue+HasKey / RuntimeContext::SetValue,GetValue / Attach / Detach in arbitrary order incl. stale, '
+        'Context(k,v) / GetValue+HasKey / RuntimeContext::SetValue,GetValue / trace::SetSpan,GetSpan,IsRootSpan / a user-provided '
+        'RuntimeContextStorage installed first (15 % of the programs) / Attach / Detach in arbitrary order incl. stale, '
         'twice-attached and foreign tokens / token destruction / GetCurrent / GetCurrentSpan / Scope open, close out of order '
         'and from another thread / full stack dumps) over a growing family of contexts on 1-3 real threads sequentialised by '
         'a baton; keys with embedded NULs, prefixes of one another, empty and null-data keys; stack depths to 300 (every '
@@ -37,6 +38,7 @@ TRUSTED = ['ThreadSanitizer / AddressSanitizer / UBSan runtimes of g++ 12', 'har
 ASSUMPTIONS = ['a SetValues container listing a key twice: the first listed pair wins (what the constructor does); the property '
                'text does not say', 'Detach of a default-context token on an empty stack returns true and changes nothing']
 SPAN_KEY = b'active_span'
+ROOT_KEY = b'is_root_span'
 POOL = 4
 KEY_FAMILY = [b'', b'k', b'k\x00', b'k\x00a', b'ke', b'key', b'key2', SPAN_KEY, b'active_spa', b'active_span\x00', b'\xff\xfe',
               b'K', b'a' * 40, b'is_root_span', b'\x00']
@@ -153,6 +155,10 @@ class Gen:
             self.ops.append(f'close {t} {j}'); self.scopes[j] = False
         elif kind in ('cur', 'span', 'dump'):
             self.ops.append(f'{kind} {t}')
+        elif kind == 'sspan':      # trace::SetSpan(context, span)
+            self.ops.append(f'sspan {t} {self.ctx()} {rng.randrange(POOL)}'); self.nctx += 1; self.flags.add('trace-context-helpers')
+        elif kind in ('gspan', 'isroot'):      # trace::GetSpan(context) / trace::IsRootSpan(context)
+            self.ops.append(f'{kind} {t} {self.ctx()}'); self.flags.add('trace-context-helpers')
         elif kind == 'conc':
             self.ops.append(f'conc {t} {self.rng.choice([1, 2, 3, 5, 8])}'); self.flags.add('true-concurrency')
 
@@ -161,10 +167,11 @@ class Gen:
 
 
 WEIGHTS = {
-    'mixed': dict(set=14, setm=6, mk=2, mk1=1, get=12, rset=3, rget=4, attach=14, detach=12, drop=3, scope=6, close=5, cur=5, span=6, dump=2, conc=0.15),
-    'contexts': dict(set=30, setm=14, mk=4, mk1=2, get=30, rset=4, rget=4, attach=3, detach=2, cur=1, span=1),
+    'mixed': dict(set=14, setm=6, mk=2, mk1=1, get=12, rset=3, rget=4, attach=14, detach=12, drop=3, scope=6, close=5, cur=5, span=6, dump=2, conc=0.15,
+                  sspan=2, gspan=2, isroot=1),
+    'contexts': dict(set=30, setm=14, mk=4, mk1=2, get=30, rset=4, rget=4, attach=3, detach=2, cur=1, span=1, sspan=4, gspan=5, isroot=3),
     'stack': dict(set=4, get=2, attach=30, detach=26, drop=5, scope=6, close=5, cur=8, span=6, dump=4, rget=3),
-    'scopes': dict(set=4, attach=6, detach=5, scope=28, close=24, span=22, cur=5, dump=3, rset=3),
+    'scopes': dict(set=4, attach=6, detach=5, scope=28, close=24, span=22, cur=5, dump=3, rset=3, sspan=4, gspan=4),
     'concurrent': dict(set=8, setm=2, get=4, attach=16, detach=12, drop=2, scope=8, close=6, cur=4, span=4, dump=2, conc=8),
 }
 
@@ -180,6 +187,10 @@ def pick_pool(rng):
 
 def gen_program(rng, style, nthreads, nops):
     g = Gen(rng, nthreads, pick_pool(rng))
+    if rng.random() < 0.15:
+        # a user-provided RuntimeContextStorage, installed before anything is attached (0 = another ThreadLocalContextStorage,
+        # 1 = a subclass that forwards and counts, 2 = the current one again)
+        g.ops.append(f'storage {g.t()} {rng.randrange(3)}'); g.flags.add('custom-storage')
     w = WEIGHTS[style]
     kinds, weights = list(w), list(w.values())
     while len(g.ops) < nops:
@@ -257,6 +268,13 @@ def corpus():
     c('ctx 2 6163746976655f7370616e ; span 0 ; scope 0 1 ; span 0 ; span 1 ; scope 0 2 ; span 0 ; close 0 0 ; span 0 ; dump 0 ; close 1 1 ; span 0', 'scope')
     c('ctx 1 6163746976655f7370616e ; set 0 0 6163746976655f7370616e i:5 ; attach 0 1 ; span 0 ; scope 0 3 ; span 0 ; close 0 0 ; span 0', 'scope')
     c('ctx 3 6b,6163746976655f7370616e ; set 0 0 6b i:1 ; set 1 1 6b i:2 ; attach 0 1 ; attach 2 2 ; conc 1 20 ; dump 0 ; dump 1 ; dump 2 ; get 0 2 6b', 'true-concurrency')
+    # trace/context.h helpers: SetSpan = SetValue(kSpanKey, span); GetSpan / IsRootSpan read one key and fall back on any other alternative
+    sk, rk = SPAN_KEY.hex(), b'is_root_span'.hex()
+    c(f'ctx 1 {sk},{rk} ; gspan 0 0 ; isroot 0 0 ; sspan 0 0 2 ; gspan 0 1 ; set 0 1 {sk} i:5 ; gspan 0 2 ; gspan 0 1 ; set 0 2 {rk} b:1 ; isroot 0 3 ; '
+      f'set 0 3 {rk} i:1 ; isroot 0 4 ; set 0 4 {rk} b:0 ; isroot 0 5 ; isroot 0 3 ; sspan 0 5 0 ; gspan 0 6 ; attach 0 6 ; span 0 ; set 0 6 {sk} sc:1 ; gspan 0 7', 'trace-context-helpers')
+    # a user-provided storage behind RuntimeContext: per-thread stacks, attach / detach / scope as before
+    for k in (0, 1, 2):
+        c(f'ctx 2 6b,{sk} ; storage 0 {k} ; set 0 0 6b i:1 ; attach 0 1 ; attach 1 0 ; scope 1 2 ; span 1 ; span 0 ; cur 0 ; detach 0 0 ; close 0 0 ; dump 0 ; dump 1 ; conc 0 3', 'custom-storage')
     return out
 
 
@@ -442,6 +460,19 @@ def reference(line):
                 obs = f'cur=c{top(t)}'
             elif name == 'span' and not a:
                 v = ctxs[top(t)].get(SPAN_KEY, 'n'); obs = v if v.startswith('sp:') else 'invalid'
+            elif name == 'sspan' and len(a) == 2:
+                i = p_nat(a[1])
+                if i >= POOL:
+                    raise Bad(g)
+                c = new(ctx_arg(a[0]), [(SPAN_KEY, f'sp:{i}')]); obs = f'c{c}' + show(c)
+            elif name == 'gspan' and len(a) == 1:
+                v = ctxs[ctx_arg(a[0])].get(SPAN_KEY, 'n'); obs = v if v.startswith('sp:') else 'invalid'
+            elif name == 'isroot' and len(a) == 1:
+                obs = 'root=1' if ctxs[ctx_arg(a[0])].get(ROOT_KEY, 'n') == 'b:1' else 'root=0'
+            elif name == 'storage' and len(a) == 1:
+                if p_nat(a[0]) >= 3:
+                    raise Bad(g)
+                obs = f'cur=c{top(t)}'      # another storage object: the thread's stack is what it was
             elif name == 'scope' and len(a) == 1:
                 i = p_nat(a[0])
                 if i >= POOL:
@@ -473,7 +504,9 @@ CLAUSE = {'set': 'new-context-shadows-and-inherits', 'setm': 'new-context-shadow
           'attach': 'attach-makes-current', 'detach': 'detach-restores-previous', 'drop': 'detach-restores-previous',
           'cur': 'current-is-top-of-stack', 'dump': 'stack-discipline', 'span': 'scope-release-restores-span',
           'scope': 'scope-activates-span', 'close': 'scope-release-restores-span',
-          'conc': 'threads-concurrently-isolated'}
+          'conc': 'threads-concurrently-isolated',
+          'sspan': 'new-context-shadows-and-inherits', 'gspan': 'most-recent-binding-returned', 'isroot': 'most-recent-binding-returned',
+          'storage': 'custom-storage-keeps-the-per-thread-stacks'}
 
 
 def oracle(case, out):
